@@ -1,21 +1,22 @@
 #!/usr/bin/env python3
 """validate MANIFEST.json and evidence files against the schemas (python3-vt has jsonschema)"""
-import json, sys, glob, jsonschema
+import json, os, sys, glob, jsonschema
+ROOT = os.path.dirname(os.path.dirname(os.path.abspath(__file__)))
 ok = True
-m = json.load(open('/verif/MANIFEST.json'))
+m = json.load(open(ROOT+'/MANIFEST.json'))
 try:
     jsonschema.validate(m, json.load(open('/root/.vp/MANIFEST.schema.json')))
     print('MANIFEST ok: checks=%d not_applicable=%d' % (len(m['checks']), len(m.get('not_applicable', []))))
 except Exception as e:
     ok = False; print('MANIFEST INVALID', e)
 es = json.load(open('/root/.vp/EVIDENCE.schema.json'))
-for f in sorted(glob.glob('/verif/evidence/*.json')):
+for f in sorted(glob.glob(ROOT+'/evidence/*.json')):
     try:
         jsonschema.validate(json.load(open(f)), es)
     except Exception as e:
         ok = False; print('EVIDENCE INVALID', f, str(e)[:300])
 ids = {c['property_id'] for c in m['checks']} | {c['property_id'] for c in m.get('not_applicable', [])}
-props = [json.loads(l)['id'] for l in open('/verif/properties.jsonl')]
+props = [json.loads(l)['id'] for l in open(ROOT+'/properties.jsonl')]
 missing = [p for p in props if p not in ids]
 if missing:
     ok = False; print('properties neither claimed nor not_applicable:', missing)
